@@ -582,4 +582,73 @@ theorem F9_witness :
     scatterOp (· - ·) [(0:Int), 0, 0] [1, 1] [5, 7] = [0, -7, 0] ∧
     scatterAcc (· - ·) [(0:Int), 0, 0] [1, 1] [5, 7] = [0, -12, 0] := by decide
 
+
+/-! ## ext: the code's chain rule through Cardano's formula IS the implicit-function derivative -/
+
+/-- `cardano_chain_eq_implicit` (DESIGN ext item), PROVED FOR THE CARDANO BRANCH (`det > 0`): off the
+    regularised band the triple `calc_cubic_root_derivatives(a, b, c, k)` equals
+    `(−y²/P'(y), −y/P'(y), −1/P'(y))` at the root `y = calc_cubic_root(a, b, c, k)` the code returns.
+
+    Full statement (not proved for `det ≤ 0`, the trigonometric chain rule of `calc_triple_root`):
+      `regularised a b c = false → calcCubicRootDerivs a b c k = implicitDerivs a b (calcCubicRoot a b c k)`
+    for `k ≤ 2`.  Missing: the `arcsin`/`sin`/`cos` chain (needs `Real.cos_three_mul`-style identities for
+    all three roots); that half is tied by the `c13.jac` / `c13.cubic` correspondence and the oracle only. -/
+theorem cardano_chain_eq_implicit_partial (a b c : ℝ) (k : Nat) (hdet : 0 < cubDet a b c)
+    (hreg : regularised a b c = false) :
+    calcCubicRootDerivs a b c k = implicitDerivs a b (calcCubicRoot a b c k) :=
+  cardano_chain_eq_implicit_aux a b c k hdet hreg
+
+/-- consequently, on the Cardano branch off the band, the model's (= the code's) Jacobian of the Odijk
+    force model is the one assembled from the implicit-function root derivatives — which by
+    `OF.row_*` is the derivative of every differentiable branch of simple roots; same for the other
+    three cubic models. -/
+theorem cubic_jac_eq_implicit_cardano :
+    (∀ d Lp Lc St kT : ℝ, 0 < cubDet (OF.a d Lp Lc St kT) (OF.b d Lp Lc St kT) (OF.c d Lp Lc St kT) →
+      regularised (OF.a d Lp Lc St kT) (OF.b d Lp Lc St kT) (OF.c d Lp Lc St kT) = false →
+      OF.jac d Lp Lc St kT = OF.jacWith (implicitDerivs (OF.a d Lp Lc St kT) (OF.b d Lp Lc St kT) (OF.val d Lp Lc St kT)) d Lp Lc St kT ∧
+      OF.der d Lp Lc St kT = OF.derWith (implicitDerivs (OF.a d Lp Lc St kT) (OF.b d Lp Lc St kT) (OF.val d Lp Lc St kT)) d Lp Lc St kT) ∧
+    (∀ f Lp Lc kT : ℝ, 0 < cubDet (WD.a f Lp Lc kT) (WD.b f Lp Lc kT) (WD.c f Lp Lc kT) →
+      regularised (WD.a f Lp Lc kT) (WD.b f Lp Lc kT) (WD.c f Lp Lc kT) = false →
+      WD.jac f Lp Lc kT = WD.jacWith (implicitDerivs (WD.a f Lp Lc kT) (WD.b f Lp Lc kT) (WD.val f Lp Lc kT)) f Lp Lc kT ∧
+      WD.der f Lp Lc kT = WD.derWith (implicitDerivs (WD.a f Lp Lc kT) (WD.b f Lp Lc kT) (WD.val f Lp Lc kT)) f Lp Lc kT) ∧
+    (∀ d Lp Lc St kT : ℝ, 0 < cubDet (EF.a d Lp Lc St kT) (EF.b d Lp Lc St kT) (EF.c d Lp Lc St kT) →
+      regularised (EF.a d Lp Lc St kT) (EF.b d Lp Lc St kT) (EF.c d Lp Lc St kT) = false →
+      EF.jac d Lp Lc St kT = EF.jacWith (implicitDerivs (EF.a d Lp Lc St kT) (EF.b d Lp Lc St kT) (EF.val d Lp Lc St kT)) d Lp Lc St kT ∧
+      EF.der d Lp Lc St kT = EF.derWith (implicitDerivs (EF.a d Lp Lc St kT) (EF.b d Lp Lc St kT) (EF.val d Lp Lc St kT)) d Lp Lc St kT) ∧
+    (∀ f Lp Lc St kT : ℝ, 0 < cubDet (ED.a f Lp Lc St kT) (ED.b f Lp Lc St kT) (ED.c f Lp Lc St kT) →
+      regularised (ED.a f Lp Lc St kT) (ED.b f Lp Lc St kT) (ED.c f Lp Lc St kT) = false →
+      ED.jac f Lp Lc St kT = ED.jacWith (implicitDerivs (ED.a f Lp Lc St kT) (ED.b f Lp Lc St kT) (ED.val f Lp Lc St kT)) f Lp Lc St kT ∧
+      ED.der f Lp Lc St kT = ED.derWith (implicitDerivs (ED.a f Lp Lc St kT) (ED.b f Lp Lc St kT) (ED.val f Lp Lc St kT)) f Lp Lc St kT) := by
+  refine ⟨fun d Lp Lc St kT h1 h2 => ?_, fun f Lp Lc kT h1 h2 => ?_, fun d Lp Lc St kT h1 h2 => ?_,
+    fun f Lp Lc St kT h1 h2 => ?_⟩
+  · simp only [OF.jac, OF.der, OF.val, cardano_chain_eq_implicit_aux _ _ _ 2 h1 h2, and_self]
+  · simp only [WD.jac, WD.der, WD.val, cardano_chain_eq_implicit_aux _ _ _ 1 h1 h2, and_self]
+  · simp only [EF.jac, EF.der, EF.val, cardano_chain_eq_implicit_aux _ _ _ 2 h1 h2, and_self]
+  · simp only [ED.jac, ED.der, ED.val, cardano_chain_eq_implicit_aux _ _ _ 1 h1 h2, and_self]
+
+theorem cbrt_one : Real.cbrt 1 = 1 := by
+  unfold Real.cbrt; rw [if_pos (by norm_num)]; exact Real.one_rpow _
+
+/-- non-vacuity of `det > 0 ∧ ¬regularised`: `y³ + 3y = 0` (`p = 3, q = 0, det = 1, t₁ = t₂ = √det = 1`) -/
+example : (0:ℝ) < cubDet (0:ℝ) 3 0 ∧ regularised (0:ℝ) 3 0 = false := by
+  have hd : cubDet (0:ℝ) 3 0 = 1 := by simp only [cubDet, cubQ, cubP]; norm_num
+  have hq : cubQ (0:ℝ) 3 0 = 0 := by simp only [cubQ]; norm_num
+  have hlt : RealLike.lt (0.0:ℝ) (1:ℝ) = true := by
+    show decide ((0.0:ℝ) < 1) = true
+    rw [decide_eq_true_eq]; norm_num
+  have hs : RealLike.sqrt (1:ℝ) = 1 := Real.sqrt_one
+  have hc : RealLike.cbrt (1:ℝ) = 1 := cbrt_one
+  have ha : RealLike.abs (1:ℝ) = 1 := abs_one
+  have ha' : RealLike.abs (-(1:ℝ) - 0.5 * 0) = 1 := by
+    show |(-(1:ℝ) - 0.5 * 0)| = 1
+    norm_num
+  have ha'' : RealLike.abs ((1:ℝ) - 0.5 * 0) = 1 := by
+    show |((1:ℝ) - 0.5 * 0)| = 1
+    norm_num
+  have hbig : RealLike.lt (1:ℝ) (10e-6:ℝ) = false := by
+    show decide ((1:ℝ) < 10e-6) = false
+    rw [decide_eq_false_iff_not]; norm_num
+  refine ⟨by rw [hd]; norm_num, ?_⟩
+  simp only [regularised, hd, hq, hlt, if_true, hs, ha', ha'', hc, RealLike.sq, mul_one, ha, hbig, Bool.or_self]
+
 end Verif.C13
